@@ -6,7 +6,14 @@ pub mod element_parser_fns {
 use super::*;
 use crate::tokenizer;
 pub use crate::element_parser::*;
-//@import element_parse only=-
+/// the tag name element_parser::parse yields for a token (None: not a well-formed tag)
+pub uninterp spec fn ep_name<'a, 'b, 'c>(t: tokenizer::Token<'a, 'b, 'c>) -> Option<Seq<char>>;
+//@fn id=element_parse_pure file=element_parser.rs name=parse props=C10 stub=only trusted="assumed: element_parser::parse is a pure function of the token value (safe code, no interior mutability, no globals): whether it returns Some, and the name it returns, are functions ep_name of *token"
+//@ret r
+//@ensures label=element_parse_is_a_function_of_the_token
+    (r is Some) == (ep_name(*token) is Some),
+    r matches Some(e) ==> e.name@ == ep_name(*token)->0,
+//@end
 }
 
 pub mod parser_impl {
@@ -17,6 +24,79 @@ use crate::parser::*;
 //@item file=parser.rs kind=enum name=State
 
 //@include parser_vocab.vs
+//@include stack_vocab.vs
+pub type Tok<'a, 'b, 'c> = tokenizer::Token<'a, 'b, 'c>;
+/// tag name of a token: element tokens that element_parser accepts
+pub open spec fn tok_nm<'a, 'b, 'c>() -> spec_fn(Tok<'a, 'b, 'c>) -> Option<Seq<char>> {
+    |t: Tok<'a, 'b, 'c>| if t.kind is Element { crate::element_parser_fns::ep_name(t) } else { None }
+}
+/// the parse tree as a tree of token values
+pub open spec fn gp<'a, 'b, 'c, 'd>(parts: Seq<ContentPart<'a, 'b, 'c, 'd>>) -> Seq<GP<Tok<'a, 'b, 'c>>>
+    decreases parts,
+{
+    if parts.len() == 0 { Seq::empty() } else {
+        gp(parts.drop_last()).push(match parts.last() {
+            ContentPart::Text(t) => GP::Txt(*t.token),
+            ContentPart::Element(el) => GP::El(*el.start_token, *el.end_token, gp(el.children@)),
+        })
+    }
+}
+pub proof fn lemma_gp_add<'a, 'b, 'c, 'd>(a: Seq<ContentPart<'a, 'b, 'c, 'd>>, b: Seq<ContentPart<'a, 'b, 'c, 'd>>)
+    ensures gp(a + b) == gp(a) + gp(b),
+    decreases b.len(),
+{
+    if b.len() == 0 {
+        assert(a + b =~= a);
+        assert(gp(a) + gp(b) =~= gp(a));
+    } else {
+        assert((a + b).drop_last() =~= a + b.drop_last());
+        assert((a + b).last() == b.last());
+        lemma_gp_add(a, b.drop_last());
+        assert(gp(a + b) =~= gp(a) + gp(b));
+    }
+}
+pub proof fn lemma_gp_one<'a, 'b, 'c, 'd>(s: Seq<ContentPart<'a, 'b, 'c, 'd>>, c: ContentPart<'a, 'b, 'c, 'd>)
+    requires s.len() == 1, s[0] == c,
+    ensures gp(s) == seq![match c {
+        ContentPart::Text(t) => GP::Txt(*t.token),
+        ContentPart::Element(el) => GP::El(*el.start_token, *el.end_token, gp(el.children@)),
+    }],
+{
+    assert(s.drop_last() =~= Seq::<ContentPart<'a, 'b, 'c, 'd>>::empty());
+    assert(s.last() == c);
+    assert(gp(s.drop_last()) =~= Seq::<GP<Tok<'a, 'b, 'c>>>::empty());
+    assert(gp(s) =~= seq![match c {
+        ContentPart::Text(t) => GP::Txt(*t.token),
+        ContentPart::Element(el) => GP::El(*el.start_token, *el.end_token, gp(el.children@)),
+    }]);
+}
+pub open spec fn pnames(parents: Seq<&element_parser::Element>) -> Seq<Seq<char>> {
+    Seq::new(parents.len(), |i: int| parents[i].name@)
+}
+pub open spec fn end_name<'a, 'b, 'c, 'd>(end: Option<(&'d Tok<'a, 'b, 'c>, element_parser::Element<'a>)>) -> Option<Seq<char>> {
+    match end { None => None, Some(te) => Some(te.1.name@) }
+}
+/// C10, per call of tree: for every machine state whose open elements are this call's (non-phantom) parents,
+/// the call is a segment of the machine's run
+pub open spec fn tree_post2<'a, 'b, 'c, 'd>(tokens: Seq<Tok<'a, 'b, 'c>>, c0: int, new: Seq<ContentPart<'a, 'b, 'c, 'd>>, c1: int, end: Option<(&'d Tok<'a, 'b, 'c>, element_parser::Element<'a>)>, parents: Seq<&element_parser::Element>) -> bool {
+    forall|s: St<Tok<'a, 'b, 'c>>| #[trigger] corr(s.fr, pnames(parents)) ==> tree_sem(s, tokens, c0, gp(new), c1, end_name(end), tok_nm())
+}
+/// what one loop iteration of tree (token c0i) contributes, seen from a machine state s "at c0i"
+pub open spec fn part_sem<'a, 'b, 'c, 'd>(s: St<Tok<'a, 'b, 'c>>, tokens: Seq<Tok<'a, 'b, 'c>>, c0i: int, c1: int, part: State<'a, 'b, 'c, 'd>) -> bool {
+    let n = tokens.len() as int;
+    match part {
+        State::Closed(te) => tok_nm()(tokens[c0i]) == Some(te.1.name@) && slash(te.1.name@) && innermost(s.fr, unslash(te.1.name@)) >= 0,
+        State::Content(ps) => if c1 <= n { seg_exact(s, tokens, c0i, c1, tok_nm(), gp(ps@)) } else { seg(s, tokens, c0i, n, tok_nm(), gp(ps@)) },
+        State::Hoisted(pte) => seg(s, tokens, c0i, c1 - 1, tok_nm(), gp(pte.0@)) && closer_at(s, tokens, c0i, c1 - 1, tok_nm(), pte.2.name@),
+    }
+}
+pub open spec fn closure_post2<'a, 'b, 'c, 'd>(tokens: Seq<Tok<'a, 'b, 'c>>, oc: int, c1: int, ret: State<'a, 'b, 'c, 'd>, parents: Seq<&element_parser::Element>) -> bool {
+    forall|s: St<Tok<'a, 'b, 'c>>| #[trigger] corr(s.fr, pnames(parents)) ==> part_sem(s, tokens, oc - 1, c1, ret)
+}
+pub open spec fn loop_sem<'a, 'b, 'c>(s: St<Tok<'a, 'b, 'c>>, tokens: Seq<Tok<'a, 'b, 'c>>, c0: int, cur: int, g: Seq<GP<Tok<'a, 'b, 'c>>>) -> bool {
+    let n = tokens.len() as int;
+    if cur <= n { seg_exact(s, tokens, c0, cur, tok_nm(), g) } else { seg(s, tokens, c0, n, tok_nm(), g) }
+}
 pub open spec fn upto(c: int, n: int) -> int { if c <= n { c } else { n } }
 
 /// the closing tag el2 names one of the open elements
@@ -54,6 +134,8 @@ pub open spec fn closure_post<'a, 'b, 'c, 'd>(tokens: Seq<tokenizer::Token<'a, '
     final(parts)@.len() >= old(parts)@.len(),
     final(parts)@.take(old(parts)@.len() as int) == old(parts)@,
     tree_post(tokens@, cursor as int, final(parts)@.skip(old(parts)@.len() as int), r.0 as int, r.1, parent_elements@),
+//@ensures label=tree_is_a_segment_of_the_stack_machine props=C10
+    tree_post2(tokens@, cursor as int, final(parts)@.skip(old(parts)@.len() as int), r.0 as int, r.1, parent_elements@),
 //@fn-decreases
     tokens@.len() + 1 - cursor, 0int
 //@breaktype 1 type="(usize, Option<(&'d tokenizer::Token<'a, 'b, 'c>, element_parser::Element<'a>)>)"
@@ -69,8 +151,10 @@ pub open spec fn closure_post<'a, 'b, 'c, 'd>(tokens: Seq<tokenizer::Token<'a, '
             1 <= *old(cur) <= tokens@.len(),
             *t == tokens@[*old(cur) - 1],
             2 * tokens@.len() + 2 <= usize::MAX,
+            tok_nm()(*t) == Some(el.name@),
         ensures
             closure_post(tokens@, *old(cur) as int, *final(cur) as int, ret, parent_elements@),
+            closure_post2(tokens@, *old(cur) as int, *final(cur) as int, ret, parent_elements@),
         decreases tokens@.len() + 1 - *old(cur), 1int
 //@loop 1
 //@invariant_except_break
@@ -81,10 +165,12 @@ pub open spec fn closure_post<'a, 'b, 'c, 'd>(tokens: Seq<tokenizer::Token<'a, '
     parts@.take(old(parts)@.len() as int) == old(parts)@,
     flatten(parts@.skip(old(parts)@.len() as int)) == tokens@.subrange(cursor as int, upto(cur as int, tokens@.len() as int)),
     cur > tokens@.len() ==> cur <= 2 * tokens@.len() - cursor,
+    forall|s: St<Tok<'a, 'b, 'c>>| #[trigger] corr(s.fr, pnames(parent_elements@)) ==> loop_sem(s, tokens@, cursor as int, cur as int, gp(parts@.skip(old(parts)@.len() as int))),
 //@loop-ensures
     parts@.len() >= old(parts)@.len(),
     parts@.take(old(parts)@.len() as int) == old(parts)@,
     tree_post(tokens@, cursor as int, parts@.skip(old(parts)@.len() as int), __lv1.0 as int, __lv1.1, parent_elements@),
+    tree_post2(tokens@, cursor as int, parts@.skip(old(parts)@.len() as int), __lv1.0 as int, __lv1.1, parent_elements@),
 //@decreases
     2 * tokens@.len() + 2 - cur
 //@loop 2
@@ -93,8 +179,10 @@ pub open spec fn closure_post<'a, 'b, 'c, 'd>(tokens: Seq<tokenizer::Token<'a, '
     !__rA1,
     0 <= __m <= parent_elements@.len(),
     it_rem(__itA1) =~= parent_elements@.as_ref().skip(__m),
+    forall|i: int| 0 <= i < __m ==> (#[trigger] parent_elements@[i]).name@ != pair_name@,
 //@loop-ensures
     __rA1 ==> exists|i: int| 0 <= i < parent_elements@.len() && (#[trigger] parent_elements@[i]).name@ == pair_name@,
+    !__rA1 ==> forall|i: int| 0 <= i < parent_elements@.len() ==> (#[trigger] parent_elements@[i]).name@ != pair_name@,
 //@decreases
     IteratorSpec::decrease(&__itA1)->0
 //@at before "loop {" 2
@@ -110,13 +198,31 @@ pub open spec fn closure_post<'a, 'b, 'c, 'd>(tokens: Seq<tokenizer::Token<'a, '
         __m = __m + 1;
     }
 //@at before "return State::Closed((t, el));"
-    broadcast use axiom_trim_start_str;
-    proof { assert(closes_some(parent_elements@, el)); }
+    broadcast use axiom_trim_start_str, axiom_starts_with_str;
+    proof {
+        assert(closes_some(parent_elements@, el));
+        reveal_strlit("/");
+        assert("/"@ =~= seq!['/']);
+        assert(el.name@.take(1)[0] == '/');
+        assert(slash(el.name@));
+        assert(pair_name@ == unslash(el.name@));
+        lemma_unslash_noslash(el.name@);
+        let pn = pnames(parent_elements@);
+        let wi = choose|i: int| 0 <= i < parent_elements@.len() && (#[trigger] parent_elements@[i]).name@ == pair_name@;
+        assert(pn[wi] == unslash(el.name@));
+        assert forall|s: St<Tok<'a, 'b, 'c>>| #[trigger] corr(s.fr, pn) implies innermost(s.fr, unslash(el.name@)) >= 0 by {
+            lemma_corr_any(s.fr, pn, unslash(el.name@));
+        }
+    }
 //@at before "let mut cur = cursor;"
     proof {
         assert(parts@.skip(parts@.len() as int) =~= Seq::<ContentPart<'a, 'b, 'c, 'd>>::empty());
         assert(parts@.take(parts@.len() as int) =~= parts@);
         assert(tokens@.subrange(cursor as int, cursor as int) =~= Seq::<tokenizer::Token<'a, 'b, 'c>>::empty());
+        assert(gp(parts@.skip(parts@.len() as int)) =~= Seq::<GP<Tok<'a, 'b, 'c>>>::empty());
+        assert forall|s: St<Tok<'a, 'b, 'c>>| #[trigger] corr(s.fr, pnames(parent_elements@)) implies loop_sem(s, tokens@, cursor as int, cursor as int, Seq::<GP<Tok<'a, 'b, 'c>>>::empty()) by {
+            lemma_push_parts(s, Seq::empty(), Seq::empty());
+        }
     }
 //@at loop 1 start
     broadcast use axiom_into_seq_vec;
@@ -124,6 +230,14 @@ pub open spec fn closure_post<'a, 'b, 'c, 'd>(tokens: Seq<tokenizer::Token<'a, '
     let ghost __c0 = cur as int;
     let ghost __n = tokens@.len() as int;
     let ghost __k = old(parts)@.len() as int;
+    let ghost __pn = pnames(parent_elements@);
+    let ghost __g0 = gp(parts@.skip(__k));
+//@at before "if t.is_none() {"
+    proof {
+        assert forall|s: St<Tok<'a, 'b, 'c>>| #[trigger] corr(s.fr, __pn) implies (__c0 >= __n ==> seg(s, tokens@, cursor as int, __n, tok_nm(), __g0)) by {
+            if __c0 == __n { lemma_seg_exact_is_seg(s, tokens@, cursor as int, __n, tok_nm(), __g0); }
+        }
+    }
 //@at before "let part: State<'a, 'b, 'c, 'd> = match t.kind {"
     proof {
         lemma_flatten_empty();
@@ -146,6 +260,30 @@ pub open spec fn closure_post<'a, 'b, 'c, 'd>(tokens: Seq<tokenizer::Token<'a, '
             State::Closed(te) => cur as int == __c0 + 1 && *te.0 == tokens@[__c0] && closes_some(parent_elements@, te.1),
             State::Hoisted(pte) => cur as int <= __n && cur as int > __c0 && *pte.1 == tokens@[cur - 1] && flatten(pte.0@) == tokens@.subrange(__c0, cur - 1) && closes_some(parent_elements@, pte.2),
         });
+        let tx = ContentPart::Text(Text { token: t });
+        assert forall|s: St<Tok<'a, 'b, 'c>>| #[trigger] corr(s.fr, __pn) implies part_sem(s, tokens@, __c0, cur as int, __part) by {
+            if tok_nm()(tokens@[__c0]) is None {
+                let e = Seq::<GP<Tok<'a, 'b, 'c>>>::empty();
+                lemma_push_parts(s, e, e);
+                lemma_text_step(s, tokens@, __c0, __c0, tok_nm(), e);
+                let ps = __part->Content_0@;
+                lemma_gp_one(ps, tx);
+                assert(e + seq![GP::Txt(tokens@[__c0])] =~= seq![GP::Txt(tokens@[__c0])]);
+            }
+        }
+        // a closing tag for one of our parents: the segment ends just before it
+        assert forall|s: St<Tok<'a, 'b, 'c>>| #[trigger] corr(s.fr, __pn) implies (__part matches State::Closed(te) ==>
+                seg(s, tokens@, cursor as int, __c0, tok_nm(), __g0) && closer_at(s, tokens@, cursor as int, __c0, tok_nm(), te.1.name@)) by {
+            if __part is Closed {
+                let s2 = push_parts(s, __g0);
+                lemma_push_parts(s, __g0, Seq::empty());
+                lemma_corr_names(s.fr, s2.fr, __pn);
+                assert(corr(s2.fr, __pn));
+                let nme = (__part->Closed_0).1.name@;
+                lemma_innermost_names(s2.fr, s.fr, unslash(nme));
+                lemma_closed_here(s, tokens@, cursor as int, __c0, tok_nm(), __g0, nme);
+            }
+        }
     }
 //@at loop 1 end
     proof {
@@ -158,6 +296,15 @@ pub open spec fn closure_post<'a, 'b, 'c, 'd>(tokens: Seq<tokenizer::Token<'a, '
         lemma_flatten_add(__p0.skip(__k), x);
         assert(parts@.take(__k) =~= __p0.take(__k));
         assert(tokens@.subrange(cursor as int, upto(__c0, __n)) + tokens@.subrange(__c0, upto(cur as int, __n)) =~= tokens@.subrange(cursor as int, upto(cur as int, __n)));
+        lemma_gp_add(__p0.skip(__k), x);
+        assert forall|s: St<Tok<'a, 'b, 'c>>| #[trigger] corr(s.fr, __pn) implies loop_sem(s, tokens@, cursor as int, cur as int, gp(parts@.skip(__k))) by {
+            let s2 = push_parts(s, __g0);
+            lemma_push_parts(s, __g0, Seq::empty());
+            lemma_corr_names(s.fr, s2.fr, __pn);
+            assert(corr(s2.fr, __pn));
+            assert(part_sem(s2, tokens@, __c0, cur as int, __part));
+            lemma_seg_compose(s, tokens@, cursor as int, __c0, upto(cur as int, __n), tok_nm(), __g0, gp(x));
+        }
     }
 //@at before "return (cur, Some((t, el)));"
     proof {
@@ -170,10 +317,38 @@ pub open spec fn closure_post<'a, 'b, 'c, 'd>(tokens: Seq<tokenizer::Token<'a, '
         lemma_flatten_add(__p0.skip(__k), x);
         assert(parts@.take(__k) =~= __p0.take(__k));
         assert(tokens@.subrange(cursor as int, __c0) + tokens@.subrange(__c0, cur - 1) =~= tokens@.subrange(cursor as int, cur - 1));
+        lemma_gp_add(__p0.skip(__k), x);
+        let ename = (__part->Hoisted_0).2.name@;
+        assert forall|s: St<Tok<'a, 'b, 'c>>| #[trigger] corr(s.fr, __pn) implies
+                seg(s, tokens@, cursor as int, cur - 1, tok_nm(), gp(parts@.skip(__k))) && closer_at(s, tokens@, cursor as int, cur - 1, tok_nm(), ename) by {
+            let s2 = push_parts(s, __g0);
+            lemma_push_parts(s, __g0, Seq::empty());
+            lemma_corr_names(s.fr, s2.fr, __pn);
+            assert(corr(s2.fr, __pn));
+            assert(part_sem(s2, tokens@, __c0, cur as int, __part));
+            lemma_seg_compose(s, tokens@, cursor as int, __c0, cur - 1, tok_nm(), __g0, gp(x));
+        }
     }
 //@at before "let mut next_parent_elements = parent_elements.clone();"
     let ghost __oc = *cur as int;
     let ghost __n = tokens@.len() as int;
+    let ghost __pn = pnames(parent_elements@);
+    let ghost __nm = el.name@;
+    broadcast use axiom_trim_start_str, axiom_starts_with_str;
+    proof {
+        reveal_strlit("/");
+        assert("/"@ =~= seq!['/']);
+        if slash(__nm) { assert(__nm.take(1) =~= seq!['/']); }
+        assert(slash(__nm) ==> forall|i: int| 0 <= i < parent_elements@.len() ==> (#[trigger] parent_elements@[i]).name@ != unslash(__nm));
+        lemma_unslash_noslash(__nm);
+        assert forall|s: St<Tok<'a, 'b, 'c>>| #[trigger] corr(s.fr, __pn) implies (slash(__nm) ==> innermost(s.fr, unslash(__nm)) < 0) by {
+            lemma_corr_any(s.fr, __pn, unslash(__nm));
+            if slash(__nm) && innermost(s.fr, unslash(__nm)) >= 0 {
+                let i = choose|i: int| 0 <= i < __pn.len() && #[trigger] __pn[i] == unslash(__nm);
+                assert(parent_elements@[i].name@ == unslash(__nm));
+            }
+        }
+    }
 //@at after "next_parent_elements.push(&el);"
     let ghost __np = next_parent_elements@;
     proof {
@@ -187,6 +362,23 @@ pub open spec fn closure_post<'a, 'b, 'c, 'd>(tokens: Seq<tokenizer::Token<'a, '
         lemma_flatten_one(ContentPart::Text(Text { token: t }));
         assert(tree_post(tokens@, __oc, children@, *cur as int, end_part, __np));
         assert(__oc <= *cur <= 2 * __n + 1 - __oc);
+        assert(tree_post2(tokens@, __oc, children@, *cur as int, end_part, __np));
+        assert(pnames(__np) =~= __pn.push(__nm));
+        let ch = gp(children@);
+        let tk = tokens@[__oc - 1];
+        // per machine state: what this opening-tag candidate and its recursive call amount to
+        assert forall|s: St<Tok<'a, 'b, 'c>>| #[trigger] corr(s.fr, __pn) implies (match end_name(end_part) {
+            None => seg(s, tokens@, __oc - 1, __n, tok_nm(), seq![GP::Txt(tk)] + ch),
+            Some(ename) =>
+                if __nm == unslash(ename) { seg_exact(s, tokens@, __oc - 1, *cur as int, tok_nm(), seq![GP::El(tk, tokens@[*cur - 1], ch)]) }
+                else { seg(s, tokens@, __oc - 1, *cur - 1, tok_nm(), seq![GP::Txt(tk)] + ch) && closer_at(s, tokens@, __oc - 1, *cur - 1, tok_nm(), ename) },
+        }) by {
+            let s1 = after_open(s, tk, __nm);
+            lemma_corr_after_open(s, __pn, tk, __nm);
+            assert(corr(s1.fr, pnames(__np)));
+            assert(tree_sem(s1, tokens@, __oc, ch, *cur as int, end_name(end_part), tok_nm()));
+            lemma_opener_result(s, tokens@, __oc - 1, *cur as int, tok_nm(), __nm, ch, end_name(end_part));
+        }
     }
 //@at before "State::Content(vec![ContentPart::Element(Element {"
     proof {
@@ -201,6 +393,12 @@ pub open spec fn closure_post<'a, 'b, 'c, 'd>(tokens: Seq<tokenizer::Token<'a, '
             lemma_flatten_singleton(s, e);
         }
         assert(seq![tokens@[__oc - 1]] + tokens@.subrange(__oc, *cur - 1) + seq![tokens@[*cur - 1]] =~= tokens@.subrange(__oc - 1, *cur as int));
+        assert(__nm == unslash(end_el.name@));
+        let gE = seq![GP::El(tokens@[__oc - 1], tokens@[*cur - 1], gp(children@))];
+        assert forall|ps: Seq<ContentPart<'a, 'b, 'c, 'd>>| ps.len() == 1 && ps[0] == e implies #[trigger] gp(ps) == gE by {
+            lemma_gp_one(ps, e);
+        }
+        assert(*cur <= __n);
     }
 //@at before "State::Hoisted((parts, end_token, end_el))"
     proof {
@@ -213,6 +411,10 @@ pub open spec fn closure_post<'a, 'b, 'c, 'd>(tokens: Seq<tokenizer::Token<'a, '
         lemma_flatten_add(seq![ContentPart::Text(Text { token: t })], children@);
         assert(seq![tokens@[__oc - 1]] + tokens@.subrange(__oc, *cur - 1) =~= tokens@.subrange(__oc - 1, *cur - 1));
         assert(flatten(parts@) == tokens@.subrange(__oc - 1, *cur - 1));
+        assert(__nm != unslash(end_el.name@));
+        lemma_gp_add(seq![ContentPart::Text(Text { token: t })], children@);
+        lemma_gp_one(seq![ContentPart::Text(Text { token: t })], ContentPart::Text(Text { token: t }));
+        assert(gp(parts@) == seq![GP::Txt(tokens@[__oc - 1])] + gp(children@));
     }
 //@at before "State::Content(parts)"
     proof {
@@ -221,6 +423,10 @@ pub open spec fn closure_post<'a, 'b, 'c, 'd>(tokens: Seq<tokenizer::Token<'a, '
         assert(seq![tokens@[__oc - 1]] + tokens@.subrange(__oc, __n) =~= tokens@.subrange(__oc - 1, __n));
         assert(__oc == *old(cur));
         assert(flatten(parts@) == tokens@.subrange(__oc - 1, upto(*cur as int, __n)));
+        lemma_gp_add(seq![ContentPart::Text(Text { token: t })], children@);
+        lemma_gp_one(seq![ContentPart::Text(Text { token: t })], ContentPart::Text(Text { token: t }));
+        assert(gp(parts@) == seq![GP::Txt(tokens@[__oc - 1])] + gp(children@));
+        assert(*cur > __n);
     }
 //@end
 
@@ -230,10 +436,17 @@ pub open spec fn closure_post<'a, 'b, 'c, 'd>(tokens: Seq<tokenizer::Token<'a, '
     2 * tokens@.len() + 2 <= usize::MAX,
 //@ensures label=every_token_once_in_order props=C01,C02,C03,C04,C10
     flatten(r@) == tokens@,
+//@ensures label=tree_is_the_stack_rule props=C10
+    gp(r@) == stack_parse(tokens@, tok_nm()),
 //@at after "tree(tokens, 0, &mut content_parts, vec![]);"
     proof {
         assert(content_parts@.skip(0) =~= content_parts@);
         assert(tokens@.subrange(0, tokens@.len() as int) =~= tokens@);
+        let s0 = St::<Tok<'a, 'b, 'c>> { base: Seq::empty(), fr: Seq::empty() };
+        let noparents = Seq::<&element_parser::Element>::empty();
+        assert(pnames(noparents).len() == 0);
+        assert(corr(s0.fr, pnames(noparents)));
+        assert(push_parts(s0, gp(content_parts@)).base =~= gp(content_parts@));
     }
 //@end
 
